@@ -263,6 +263,7 @@ type clientRec struct {
 	parkCh    chan struct{}
 	parkBits  int
 	cancel    context.CancelFunc
+	Gone      bool // the client went away while its own upstream exchange was in flight
 	Cancelled bool // the client went away (its request context was cancelled) while it had no upstream exchange of its own
 }
 
@@ -401,6 +402,9 @@ func (w *world) roundTrip(req *http.Request) (*http.Response, error) {
 		w.mu.Lock()
 		u.Ended, u.EndMs, u.EndKind = true, w.nowMs(), "timeout"
 		w.mu.Unlock()
+		if err := req.Context().Err(); err != nil && !gone {
+			return nil, err // context.Canceled when the client went away, DeadlineExceeded for the proxy timeout
+		}
 		return nil, context.DeadlineExceeded
 	}
 	w.mu.Lock()
@@ -1125,9 +1129,11 @@ func (w *world) execOp1(i int, op Op, m *model, tr *trace) {
 				pendOf[u.Client] = true
 			}
 		}
+		// op.Srv == 1: a client whose own upstream exchange is in flight (a fetcher, a pass) goes away;
+		// its exchange ends there and then, like one that ran into the proxy timeout
 		var cands []*clientRec
 		for _, c := range w.clients {
-			if !c.Done && !c.Cancelled && !pendOf[c.ID] && c.cancel != nil {
+			if !c.Done && !c.Cancelled && !c.Gone && pendOf[c.ID] == (op.Srv == 1) && c.cancel != nil {
 				cands = append(cands, c)
 			}
 		}
@@ -1137,7 +1143,11 @@ func (w *world) execOp1(i int, op Op, m *model, tr *trace) {
 			return
 		}
 		c := cands[((op.Pick%len(cands))+len(cands))%len(cands)]
-		c.Cancelled = true
+		if op.Srv == 1 {
+			c.Gone = true
+		} else {
+			c.Cancelled = true
+		}
 		cancel := c.cancel
 		w.mu.Unlock()
 		cancel()
